@@ -90,6 +90,9 @@ def check(prop: str, tier: str, only: str | None = None, repo: str | None = None
             continue
         for r in rr if isinstance(rr, list) else [rr]:
             rep.add(r)
+    if ctx._tmpl is not None:
+        for key, msg in ctx.tmpl.errors.items():
+            rep.analysis_errors.append(f"template {key} could not be extracted ({msg}): the rules were evaluated on the other templates only")
     rep.extra["files_analysed"] = list(ctx.prog.files)
     rep.extra["source_digest"] = ctx.prog.digest()[:16]
     if ctx._cg is not None:
@@ -131,6 +134,9 @@ def probe(prop):
             for f in r.findings:
                 if f.key not in known:
                     new.append(f.key)
+    if ctx._tmpl is not None:
+        for key, msg in ctx.tmpl.errors.items():
+            errs.append(f"template {key}: {msg}")
     print(json.dumps({"new": new, "analysis_errors": errs}))
     return 0
 
